@@ -258,7 +258,7 @@ def obligations(tier, seed):
         if tier == "quick" and mask not in (0, 1, 5, 15):
             continue
         obs.append(Ob(id="C15.2-allblocks[mask=%d]" % mask, body="harness.C15:body_allblocks", sig="mask: int, a: str, k: str, size: int, hasmime: bool, lang: bool",
-                      pre=["mask == %d" % mask, "len(a) <= %d" % n, "len(k) <= %d" % (0 if tier == "quick" else 2), "all(c in 'a +:' + chr(10) for c in a + k)", "0 <= size <= 10**7"],
+                      pre=["mask == %d" % mask, "len(a) <= %d" % n, "len(k) <= %d" % (0 if tier == "quick" else (1 if (mask & 3) == 3 else 2)), "all(c in 'a +:' + chr(10) for c in a + k)", "0 <= size <= 10**7"],
                       timeout=300 if tier == "quick" else 1200,
                       desc="getallblocks: +INFO, +ADMIN, +VIEWS (MIME type, language, size in k) then one block per attribute in insertion order, lines blank-prefixed",
                       bounds="attribute subset %d, texts |a| <= %d over {a SPACE + : LF}, any size" % (mask, n), functions=["GopherPlusProtocol.getallblocks/getblock/getadminblock/getviewsblock"]))
